@@ -12,6 +12,19 @@ RGB), formats npy / fits / png, both coordinate systems, depths 0-3, serially, u
 with real processes, clobbering and updating (complementary masked passes from TLC's pass lists); every file is read
 back and compared with the sampler at the tile's own coordinates (exactly) and at psi (1e-9); the set of files must
 be the spec's leaf set.
+Representation (spec/SampleOps.tla, shared operators): what the sampler returns is an ARRAY OBJECT standing for its values -
+element bytes in either order, row-major / Fortran / reversed / gapped strides, writable or not (read-only memory maps,
+0-strided broadcasts).  TLC checks that the stored tile is a function of the values only (Visit chooses a representation
+anew for every tile; T_ReprInvisible, and T_ReprSensitive: a reader that relabels the element type or ignores the strides
+is visible in the model); the synthetic samplers of the real runs hand out the same values in the representations of
+REPRS (big-endian '>f8' / '>f4' / '>i2' as astropy gives for FITS data, ...), in every format, clobbering and updating.
+Separately started jobs (spec/SampleJobs.tla): two or three updating-mode runs on ONE directory at overlapping times, each
+leaf update being Sample (outside the lock) / Acquire / Read+merge / Write+release with TileLock.tla's critical section;
+TLC checks JFinalOK (every leaf = union of all jobs' contributions), JKept, JMutex, termination over every interleaving,
+refutes them for the unlocked variant, and emits the final files.  Real binding: forked processes run
+sample_layer_filtered / Builder.toast_base(tile_filter=) with complementary / overlapping masked samplers that rendezvous
+(per shared tile, a barrier with a time-out) inside the sampling of each tile both visit, so that they reach the tile's
+read-modify-write together; the final tiles must hold every job's pixels.
 """
 import os
 
@@ -29,6 +42,7 @@ CONSTANTS
  Filters <- MCFilters
  Modes <- MCModes
  PassLists <- MCPasses
+ Reprs <- MCReprs
 INVARIANT FinalOK
 INVARIANT OnlyLeaves
 INVARIANT OwnPixels
@@ -41,12 +55,67 @@ def mc_module(filters, passes):
     defs = [("MCFilters", "{" + ", ".join(f if isinstance(f, str) else tla.lit(set(f)) for f in filters) + "}"),
             ("MCModes", '{"clobber", "update"}'),
             ("MCPasses", "{" + ", ".join(passes) + "}"),
+            ("MCReprs", reprs_lit()),
+            "ASSUME MCReprs \\subseteq AllReprs",
             "ASSUME T_Level0",
+            "ASSUME T_ReprInvisible({<<0, S + 1>>, <<0, H>>, <<H - 3, S + 1>>})",
+            "ASSUME T_ReprSensitive",
             'Emit == Finished => PrintT(<<"F", ToJson([filter |-> filter, bottomUp |-> bottomUp, mode |-> mode, passes |-> passes, files |-> files])>>)']
     return tla.module("MCSample", ["SampleLayer", "Json"], defs)
 
 
 PASSES = ["<< <<0, S + 1>> >>", "<< <<0, H>>, <<H, S + 1>> >>", "<< <<0, H + 3>>, <<H - 3, S + 1>> >>", "<< <<H, S + 1>>, <<0, H>> >>"]
+
+
+# ---- representations: name -> (order, layout, writable) of spec/SampleOps.tla; as_repr realises them on numpy arrays
+REPRS = {"native": ("native", "C", True),
+         "be": ("swapped", "C", True),              # '>f8' / '>f4' / '>i2': FITS data as astropy hands them out
+         "fortran": ("native", "F", True),          # Fortran order (a transposed view)
+         "negstride": ("native", "rev", True),      # both axes walked backwards
+         "gapped": ("swapped", "F", True),          # a big-endian column-major view with gaps into a larger array
+         "readonly": ("native", "C", False),
+         "memmap": ("swapped", "C", False),         # a read-only memory map of big-endian data (an opened FITS file)
+         "broadcast": ("native", "rev", False)}     # a constant tile as a 0-strided read-only broadcast of one element
+REP_CYCLE = ["be", "fortran", "memmap", "negstride", "gapped", "readonly", "broadcast", "native"]
+
+
+def reprs_lit(names=None):
+    recs = sorted({REPRS[n] for n in (names or REPRS)})
+    return "{" + ", ".join('[order |-> "%s", layout |-> "%s", writable |-> %s]' % (o, l, "TRUE" if w else "FALSE") for (o, l, w) in recs) + "}"
+
+
+CFGJ = """SPECIFICATION %(spec)s
+CONSTANTS
+ R = %(R)d
+ MaxDepth = %(D)d
+ K = %(K)d
+ Depth = %(D)d
+ Locked = %(locked)s
+ MaxJobs = %(maxjobs)d
+ JobCfgs <- MCJobCfgs
+ Reprs <- MCReprs
+INVARIANT JFinalOK
+INVARIANT JKept
+INVARIANT JMutex
+INVARIANT JLockOK
+INVARIANT JOnlyLeaves
+INVARIANT JOwnPixels
+INVARIANT Emit
+%(props)s
+CHECK_DEADLOCK FALSE
+"""
+
+
+def jobs_module(jobcfgs):
+    """jobcfgs: list of dict(id, jobs=[(filter, region-text)], pre=region-text)."""
+    def flt(f):
+        return f if isinstance(f, str) else tla.lit(set(f))
+    cf = ["[id |-> %d, pre |-> %s, jobs |-> << %s >>]" % (c["id"], c["pre"], ", ".join("[filter |-> %s, region |-> %s]" % (flt(f), reg) for (f, reg) in c["jobs"]))
+          for c in jobcfgs]
+    defs = [("MCJobCfgs", "{" + ", ".join(cf) + "}"),
+            ("MCReprs", reprs_lit(["native", "be", "memmap"])),
+            'Emit == JAllDone => PrintT(<<"J", ToJson([id |-> cfg.id, bottomUp |-> bottomUp, files |-> files])>>)']
+    return tla.module("MCJobs", ["SampleJobs", "Json"], defs)
 
 
 def expected_point(n, x, y, K, fr, c, bottom_up):
@@ -87,6 +156,14 @@ def scalar_of_vec(v):
     return v @ A1 + 0.25 * (v @ A2) ** 2
 
 
+def in_band(l, reg):
+    """Longitudes l (already reduced to [0, 2 pi)) inside the band reg = (lo, hi), or (lo, hi, period): the same band repeated
+    with that period (period pi/2: the same part of every level-1 tile, each of which spans a quarter of the longitudes)."""
+    if len(reg) == 3:
+        l = l % reg[2]
+    return (l >= reg[0]) & (l < reg[1])
+
+
 def make_sampler(kind, region=None, psi_anchor=None, infband=None):
     """region = None or (lo, hi) in units of the unit square's column coordinate u in [0, 1): the sampler is undefined
     outside.  The column coordinate of a sphere point is not available to a sampler, so masked samplers use a
@@ -116,7 +193,7 @@ def make_sampler(kind, region=None, psi_anchor=None, infband=None):
             val = np.where((l >= infband[0]) & (l < infband[1]), np.where(v[..., 2] > 0, np.inf, -np.inf), val)
         if region is not None:
             l = np.asarray(lon) % (2 * np.pi)
-            inside = (l >= region[0]) & (l < region[1])
+            inside = in_band(l, region)
             val = np.where(inside, val, np.nan)
         return val
     return f
@@ -132,6 +209,64 @@ def memoising(f):
         if key not in cache:
             cache[key] = f(lon, lat)
         return cache[key]
+    return g
+
+
+_REP_SEQ = [0]
+
+
+def as_repr(a, rep, scratch):
+    """The same VALUES in another array object (spec/SampleOps.tla: ArrayOf); `rep` is a key of REPRS."""
+    swapped = a.dtype.newbyteorder(">" if a.dtype.isnative and np.little_endian else "<") if a.dtype.itemsize > 1 else a.dtype
+    if rep == "broadcast":
+        first = a[:1, :1]
+        with np.errstate(invalid="ignore"):
+            const = bool(np.all((a == first) | ((a != a) & (first != first))))
+        if const:
+            return np.broadcast_to(a[0, 0], a.shape)            # strides 0, read-only
+        rep = "negstride"
+        out = np.ascontiguousarray(a[::-1, ::-1])[::-1, ::-1]
+        out.setflags(write=False)
+        return out
+    if rep == "native":
+        return a
+    if rep == "be":
+        if a.dtype.itemsize == 1:
+            rep = "gapped"                                       # single-byte elements have no order
+        else:
+            return a.astype(swapped)
+    if rep == "fortran":
+        return np.asfortranarray(a)
+    if rep == "negstride":
+        return np.ascontiguousarray(a[::-1, ::-1])[::-1, ::-1]
+    if rep == "gapped":
+        h, w = a.shape[:2]
+        big = np.zeros((2 * w + 3, 2 * h + 1) + a.shape[2:], dtype=swapped)
+        view = big[2:2 * w + 2:2, 1::2].swapaxes(0, 1)
+        view[...] = a
+        return view
+    if rep == "readonly":
+        out = a.copy()
+        out.setflags(write=False)
+        return out
+    if rep == "memmap":
+        _REP_SEQ[0] += 1
+        path = os.path.join(scratch, "mm-%d-%d.dat" % (os.getpid(), _REP_SEQ[0]))
+        mm = np.memmap(path, dtype=swapped, mode="w+", shape=a.shape)
+        mm[...] = a
+        mm.flush()
+        del mm
+        return np.memmap(path, dtype=swapped, mode="r", shape=a.shape)
+    raise ValueError(rep)
+
+
+def representing(f, rep, scratch):
+    """Sampler f handing its values out in representation rep."""
+    if rep in (None, "native"):
+        return f
+
+    def g(lon, lat):
+        return as_repr(f(lon, lat), rep, scratch)
     return g
 
 
@@ -168,13 +303,18 @@ def expected_leafset(depth, accept):
     return reach
 
 
-def judge_dir(ctx, label, key, d, fmt, depth, cs, psi, kind, regions, mode, accept, leaves_from_tlc=None, infband=None):
-    """Compare every tile file of a finished sampling run with the specification."""
+def judge_dir(ctx, label, key, d, fmt, depth, cs, psi, kind, regions, mode, accept, leaves_from_tlc=None, infband=None, contrib=None):
+    """Compare every tile file of a finished sampling run with the specification.
+    contrib (separately started updating jobs, SampleJobs!JExpected): list of (accept, region) - a pixel of tile p is defined iff
+    it lies in the region (None = everywhere) of some contributor whose filtered pyramid has p as a leaf."""
     from toasty import toast
     from toasty.pyramid import Pos
     bottom_up = fmt == "fits"
     files = tile_files(d, fmt)
     leaves = expected_leafset(depth, accept)
+    if contrib is not None:
+        contrib = [(expected_leafset(depth, acc), reg) for (acc, reg) in contrib]
+        leaves = set().union(*[lv for (lv, _reg) in contrib])
     if leaves_from_tlc is not None and leaves != leaves_from_tlc:
         ctx.machinery("harness leaf set disagrees with TLC's")
     rep = {"run": label, "depth": depth, "format": fmt, "mode": mode, "coordsys": str(cs), "sampler": kind}
@@ -210,14 +350,20 @@ def judge_dir(ctx, label, key, d, fmt, depth, cs, psi, kind, regions, mode, acce
                 ctx.add_note("leaf_tiles_entirely_infinite")
             if kind == "mixed":
                 defined = ~np.isnan(exp_real)
+            elif contrib is not None:
+                l = rl % (2 * np.pi)
+                defined = np.zeros((256, 256), bool)
+                for (lv, reg) in contrib:
+                    if pos in lv:
+                        defined |= np.ones((256, 256), bool) if reg is None else in_band(l, reg)
             elif regions is None:
                 defined = np.ones((256, 256), bool)
             else:
                 use = regions if mode == "update" else regions[-1:]
                 l = rl % (2 * np.pi)
                 defined = np.zeros((256, 256), bool)
-                for (lo, hi) in use:
-                    defined |= (l >= lo) & (l < hi)
+                for reg in use:
+                    defined |= in_band(l, reg)
         ctx.count()
         if pos not in files:
             if defined.any():
@@ -271,6 +417,110 @@ def judge_dir(ctx, label, key, d, fmt, depth, cs, psi, kind, regions, mode, acce
     return worst
 
 
+# ---- separately started updating jobs on one directory (spec/SampleJobs.tla) ---------------------------------------
+
+RENDEZVOUS_S = 20.0      # backstop only: every party of a shared tile's rendezvous arrives unless its job died
+
+
+def tile_signature(lon, lat):
+    h, w = lon.shape[0] // 3, lon.shape[1] // 5
+    lo = np.array([lon[0, 0], lon[-1, -1], lon[h, w]], dtype=float)
+    la = np.array([lat[0, 0], lat[-1, -1], lat[h, w]], dtype=float)
+    return np.concatenate([np.cos(la) * np.cos(lo), np.cos(la) * np.sin(lo), np.sin(la)])
+
+
+def _job_main(j, sc, d, cs, shared, barriers, scratch):
+    """One job: a forked process running a complete updating-mode sampling call.  Its sampler computes the values and then, for
+    a tile that other jobs visit too, waits for them, so that all of them go on into the tile's read-modify-write together."""
+    import json
+    import threading
+    import warnings
+    warnings.simplefilter("ignore")
+    err, met = None, 0
+    try:
+        from toasty import toast, pyramid, builder
+        job = sc["jobs"][j]
+        pio = pyramid.PyramidIO(d, default_format=sc["fmt"])
+        base = representing(make_sampler(sc["kind"], job["region"]), job.get("rep"), scratch)
+        box = [0]
+
+        def sampler(lon, lat):
+            out = base(lon, lat)
+            sig = tile_signature(lon, lat)
+            for k, (_pos, ref) in enumerate(shared):
+                if np.abs(sig - ref).max() < 1e-6:
+                    try:
+                        barriers[k].wait(RENDEZVOUS_S)
+                        box[0] += 1
+                    except threading.BrokenBarrierError:
+                        pass
+                    break
+            return out
+        acc = job["accept"]
+        flt = (lambda t: True) if acc is None else (lambda t: tuple(t.pos) in acc)
+        with simrun.quiet():
+            if sc["entry"] == "toast_base":
+                builder.Builder(pio).toast_base(sampler, sc["depth"], coordsys=cs, tile_filter=flt, parallel=1)
+            else:
+                toast.sample_layer_filtered(pio, flt, sampler, sc["depth"], coordsys=cs, parallel=1)
+        met = box[0]
+    except BaseException as e:  # noqa
+        err = "%s: %s" % (type(e).__name__, str(e)[:300])
+    try:
+        with open(os.path.join(scratch, "job-%s-%d.json" % (os.path.basename(d), j)), "w") as f:
+            json.dump({"error": err, "met": met}, f)
+    finally:
+        os._exit(0)
+
+
+def run_jobs(ctx, sc, d, cs):
+    """-> (status, detail): ("ok", rendezvous met) | ("raised", text) | ("hung", None)."""
+    import json
+    import multiprocessing as mp
+    import time
+    from toasty import toast, pyramid
+    from toasty.pyramid import Pos
+    mpc = mp.get_context("fork")
+    depth = sc["depth"]
+    leafsets = [expected_leafset(depth, job["accept"]) for job in sc["jobs"]]
+    if sc.get("pre") is not None:
+        # an earlier, finished run left tiles behind (serial, through the same entry point)
+        union = set().union(*leafsets)
+        pio = pyramid.PyramidIO(d, default_format=sc["fmt"])
+        with simrun.quiet():
+            closure = {(n - k, x >> k, y >> k) for (n, x, y) in union for k in range(n)}
+            toast.sample_layer_filtered(pio, lambda t: tuple(t.pos) in closure, make_sampler(sc["kind"], sc["pre"]), depth, coordsys=cs, parallel=1)
+    shared, barriers = [], []
+    for pos in sorted(set().union(*leafsets)):
+        parties = sum(1 for lv in leafsets if pos in lv)
+        if parties >= 2:
+            lon, lat = toast.toast_tile_get_coords(toast.create_single_tile(Pos(*pos)), coordsys=cs)
+            shared.append((pos, tile_signature(lon, lat)))
+            barriers.append(mpc.Barrier(parties))
+    procs = [mpc.Process(target=_job_main, args=(j, sc, d, cs, shared, barriers, ctx.scratch)) for j in range(len(sc["jobs"]))]
+    for p in procs:
+        p.start()
+    deadline = time.time() + 180
+    for p in procs:
+        p.join(max(0.1, deadline - time.time()))
+    if any(p.is_alive() for p in procs):
+        for p in procs:
+            if p.is_alive():
+                p.kill()
+                p.join(5)
+        return "hung", None
+    met = 0
+    for j in range(len(procs)):
+        try:
+            st = json.load(open(os.path.join(ctx.scratch, "job-%s-%d.json" % (os.path.basename(d), j))))
+        except (OSError, ValueError):
+            return "raised", "job %d ended without a status" % j
+        if st["error"]:
+            return "raised", "job %d: %s" % (j, st["error"])
+        met += st["met"]
+    return "ok", (met, sum(len([lv for lv in leafsets if pos in lv]) for (pos, _s) in shared))
+
+
 def run(ctx):
     repo.setup(ctx)
     from toasty import toast, pyramid, builder
@@ -286,13 +536,45 @@ def run(ctx):
         confs += [(6, 2, 2, [sparse, sparse2]), (6, 1, 3, ["FullFilter"]), (5, 0, 3, ["FullFilter"])]
     npx = 0
     tlc_leafsets = {}
+    # job configurations (SampleJobs.tla): filters per job, bands per job, band of an earlier finished run
+    F2 = {(1, 0, 0), (1, 1, 0)}
+    FA = {(1, 0, 0), (1, 1, 0), (1, 1, 1)}
+    FB = {(1, 1, 0), (1, 1, 1), (1, 0, 1)}
+    FC = {(1, 0, 0), (1, 1, 1)}
+    FD = {(1, 1, 1), (1, 0, 1)}
+    jR, jD = 4, 1
+    jobcfgs = [dict(id=1, pre="<<0, 0>>", jobs=[(F2, "<<0, H>>"), (F2, "<<H, S + 1>>")]),
+               dict(id=2, pre="<<0, 0>>", jobs=[(FA, "<<0, H + 3>>"), (FB, "<<H - 3, S + 1>>")]),
+               dict(id=3, pre="<<0, 3>>", jobs=[(FC, "<<H, S + 1>>"), (FD, "<<0, H>>")])]
+    if not q:
+        jobcfgs += [dict(id=4, pre="<<0, 0>>", jobs=[("FullFilter", "<<0, H>>"), ("FullFilter", "<<H, S + 1>>")]),
+                    dict(id=5, pre="<<0, 0>>", jobs=[(FC, "<<0, H>>"), (FD, "<<H - 3, S + 1>>"), (F2 | FD, "<<3, H + 3>>")])]
     import concurrent.futures
-    with concurrent.futures.ThreadPoolExecutor(max_workers=4) as pool:
+    with concurrent.futures.ThreadPoolExecutor(max_workers=5) as pool:
         futs = [pool.submit(lambda R=R, D=D, K=K, filters=filters: ctx.tlc("MCSample", extra={"MCSample.tla": mc_module(filters, PASSES)}, cfg_text=CFG % dict(R=R, D=D, K=K),
                                                                            timeout=3000, workers=4)) for (R, D, K, filters) in confs]
         ftl = pool.submit(lambda: toastlat.run_tlc(ctx, 4, 2, 1))
+        # separately started updating jobs: every interleaving of Sample / Acquire / Read / Write steps, and the negative control
+        # (no exclusion around read-merge-write), which TLC must refute
+        jmax = max(len(c["jobs"]) for c in jobcfgs)
+        fjobs = pool.submit(lambda: ctx.tlc("MCJobs", extra={"MCJobs.tla": jobs_module(jobcfgs)}, timeout=3000, workers=2 if q else 6,
+                                            cfg_text=CFGJ % dict(spec="JFairSpec", R=jR, D=jD, K=1, locked="TRUE", maxjobs=jmax, props="PROPERTY JTermination")))
+        fneg = pool.submit(lambda: ctx.tlc("MCJobs", extra={"MCJobs.tla": jobs_module(jobcfgs[:1])}, timeout=3000, workers=2, expect_violation=True, count=False,
+                                           cfg_text=CFGJ % dict(spec="JSpec", R=jR, D=jD, K=1, locked="FALSE", maxjobs=jmax, props="")))
         results = [f.result() for f in futs]
         tl = ftl.result()
+        rjobs, rneg = fjobs.result(), fneg.result()
+    if rneg.violated not in ("JFinalOK", "JKept"):
+        ctx.machinery("negative control: TLC did not refute the unlocked read-merge-write of SampleJobs.tla (got %r)" % (rneg.violated,))
+    jrecs = rjobs.json_lines("J")
+    if {rec["id"] for rec in jrecs} != {c["id"] for c in jobcfgs}:
+        ctx.machinery("TLC emitted no finished behaviour for some job configuration")
+    npx_jobs = validate_closed_form(ctx, jrecs, jR, 1, jD)
+    tlc_job_leaves = {}
+    for rec in jrecs:
+        tlc_job_leaves[rec["id"]] = {tuple(int(v) for v in k.strip("<>").split(",")) for k in rec["files"]}
+    ctx.trace_ok(len(jrecs))
+    ctx.note("abstract_pixels_of_job_configurations", npx_jobs)
     for (R, D, K, filters), r in zip(confs, results):
         recs = r.json_lines("F")
         if not recs:
@@ -362,12 +644,26 @@ def run(ctx):
                  dict(entry="sample_layer", cs="astronomical", depth=0, fmt="fits", kind="scalar", mode="clobber", regions=None, accept=None, par="sim2"),
                  dict(entry="filtered", cs="planetary", depth=3, fmt="npy", kind="scalar", mode="update", regions=[(0, 2.0), (2.0, 7.0)], accept=None, par="sim2"),
                  dict(entry="toast_base", cs="astronomical", depth=2, fmt="png", kind="rgb", mode="clobber", regions=None, accept=None, par=1)]
+    # the representation dimension: the float64 / float32 / int16 / uint8 values of every sampler are handed out big-endian
+    # (as astropy does for FITS data) in every scalar format, clobbering and updating ...
+    runs += [dict(entry="sample_layer", cs="astronomical", depth=1, fmt="npy", kind="scalar", mode="clobber", regions=None, accept=None, par=1, rep="be"),
+             dict(entry="sample_layer", cs="planetary", depth=0, fmt="fits", kind="scalar", mode="clobber", regions=None, accept=None, par=1, rep="be"),
+             dict(entry="filtered", cs="planetary", depth=1, fmt="npy", kind="scalar", mode="update", regions=[(0, B), (B, 7.0)], accept=None, par=1, rep="be"),
+             dict(entry="toast_base", cs="astronomical", depth=1, fmt="fits", kind="scalar", mode="update", regions=[(0, B + 0.4), (B - 0.4, 7.0)], accept={(1, 1, 0), (1, 0, 1)}, par=1, rep="memmap"),
+             dict(entry="sample_layer", cs="astronomical", depth=1, fmt="fits", kind="mixed", mode="clobber", regions=None, accept=None, par=1, rep="be"),
+             dict(entry="filtered", cs="astronomical", depth=1, fmt="fits", kind="mixed", mode="update", regions=None, accept=None, par=1, rep="gapped"),
+             dict(entry="sample_layer", cs="planetary", depth=0, fmt="png", kind="rgb", mode="clobber", regions=None, accept=None, par=1, rep="gapped"),
+             dict(entry="filtered", cs="astronomical", depth=1, fmt="png", kind="rgb", mode="update", regions=None, accept={(1, 0, 0)}, par=1, rep="broadcast")]
+    # ... and every other run takes its turn with one of the representations of REPRS
+    for i, rn in enumerate(runs):
+        rn.setdefault("rep", REP_CYCLE[i % len(REP_CYCLE)])
+    ctx.note("representation_x_format_x_mode_of_real_runs", sorted({"%s/%s/%s/%s" % (rn["rep"], rn["fmt"], rn["mode"], rn["kind"]) for rn in runs}))
     csmap = dict(toastlat.coordsystems())
     for rn in runs:
         cs = csmap[rn["cs"]]
         psi = toastlat.psi_for(tl, rn["cs"])
         d = ctx.mkdtemp("c06")
-        label = "%(entry)s depth %(depth)d %(cs)s %(fmt)s %(kind)s %(mode)s par=%(par)s" % rn + (" (pyramid default format %s)" % rn["piofmt"] if "piofmt" in rn else "")
+        label = "%(entry)s depth %(depth)d %(cs)s %(fmt)s %(kind)s %(mode)s par=%(par)s sampler arrays=%(rep)s" % rn + (" (pyramid default format %s)" % rn["piofmt"] if "piofmt" in rn else "")
         key = "C06:%s" % rn["entry"]
         passes = rn["regions"] if rn["regions"] is not None else [None]
         acc = rn["accept"]
@@ -386,7 +682,7 @@ def run(ctx):
                 else:
                     shutil.rmtree(os.path.join(d, str(rn["depth"]), "0"))
             for reg in passes:
-                sampler = make_sampler(rn["kind"], reg, infband=rn.get("infband"))
+                sampler = representing(make_sampler(rn["kind"], reg, infband=rn.get("infband")), rn["rep"], ctx.scratch)
                 if rn.get("memo"):
                     sampler = memo_box.setdefault(repr(reg), memoising(sampler))
                 if rn["entry"] == "sample_layer" and "piofmt" in rn:
@@ -438,6 +734,54 @@ def run(ctx):
             judge_dir(ctx, label + " (second pyramid from the same memoising sampler)", key, d2, rn["fmt"], rn["depth"], cs, psi, rn["kind"], rn["regions"], rn["mode"], acc, None,
                       infband=rn.get("infband"))
             ctx.trace_ok()
+    # ---- separately started updating jobs on one directory, reaching shared tiles together
+    # every level-1 tile spans a quarter of the longitudes: bands repeated with period pi/2 cut every tile the same way, so the
+    # jobs' samplers are complementary / overlapping inside each tile they share (as TLC's column bands are)
+    Q = np.pi / 2
+    jobruns = [dict(id=1, entry="filtered", cs="planetary", fmt="fits", regions=[(0, 0.7, Q), (0.7, Q, Q)], reps=["native", "be"]),
+               dict(id=2, entry="toast_base", cs="astronomical", fmt="npy", regions=[(0, 0.9, Q), (0.5, Q, Q)], reps=["memmap", "native"]),
+               dict(id=3, entry="filtered", cs="astronomical", fmt="npy", regions=[(0.8, Q, Q), (0, 0.8, Q)], reps=["fortran", "gapped"], pre=(0.2, 0.4, Q))]
+    if not q:
+        jobruns += [dict(id=4, entry="filtered", cs="astronomical", fmt="fits", regions=[(0, 0.6, Q), (0.6, Q, Q)], reps=["be", "readonly"]),
+                    dict(id=5, entry="toast_base", cs="planetary", fmt="npy", regions=[(0, 0.7, Q), (0.5, Q, Q), (0.3, 1.1, Q)], reps=["native", "be", "negstride"]),
+                    dict(id=1, entry="toast_base", cs="astronomical", fmt="npy", regions=[(0, 0.7), (0.7, 7.0)], reps=["be", "memmap"]),
+                    dict(id=2, entry="filtered", cs="planetary", fmt="fits", regions=[(0, 0.9, Q), (0.5, Q, Q)], reps=["gapped", "fortran"], pre=(1.0, 1.3, Q))]
+    met_total = [0, 0]
+    for jr in jobruns:
+        jc = [c for c in jobcfgs if c["id"] == jr["id"]][0]
+        accepts = [None if isinstance(f, str) else set(f) for (f, _reg) in jc["jobs"]]
+        sc = dict(entry=jr["entry"], depth=jD, fmt=jr["fmt"], kind="scalar", pre=jr.get("pre"),
+                  jobs=[dict(accept=acc, region=reg, rep=rep) for acc, reg, rep in zip(accepts, jr["regions"], jr["reps"])])
+        cs = csmap[jr["cs"]]
+        psi = toastlat.psi_for(tl, jr["cs"])
+        d = ctx.mkdtemp("c06j")
+        label = "%d separately started jobs (%s, update) on one directory, depth %d %s %s, filters %s, representations %s%s" % (
+            len(sc["jobs"]), jr["entry"], jD, jr["cs"], jr["fmt"], [sorted(a) if a is not None else "all" for a in accepts], jr["reps"],
+            ", tiles of an earlier run present" if jr.get("pre") else "")
+        key = "C06:%s-jobs" % jr["entry"]
+        try:
+            status, detail = run_jobs(ctx, sc, d, cs)
+        except Exception as e:  # noqa
+            ctx.violation(key + ":raises", "%s raised %r" % (label, e), {"run": label})
+            continue
+        if status == "hung":
+            ctx.violation(key + ":outcome", "%s: the jobs had not returned after 180 s" % label, {"run": label})
+            continue
+        if status == "raised":
+            ctx.violation(key + ":raises", "%s: %s" % (label, detail), {"run": label})
+            continue
+        met_total[0] += detail[0]
+        met_total[1] += detail[1]
+        contrib = [(job["accept"], job["region"]) for job in sc["jobs"]]
+        union = set().union(*[expected_leafset(jD, a) for a in accepts])
+        if tlc_job_leaves[jr["id"]] != union:
+            ctx.machinery("harness leaf set of job configuration %d disagrees with TLC's" % jr["id"])
+        if jr.get("pre"):
+            contrib.append(({(n - k, x >> k, y >> k) for (n, x, y) in union for k in range(n)}, jr["pre"]))
+        w = judge_dir(ctx, label, key, d, jr["fmt"], jD, cs, psi, "scalar", None, "update", None, contrib=contrib)
+        worst = max(worst, w)
+        ctx.trace_ok()
+    ctx.note("job_rendezvous_met_of_expected", met_total)
     ctx.note("worst_deviation_from_psi", worst)
     ctx.sample({"real_run": runs[5], "note": "every tile read back, 65536 pixels each"})
     ctx.assume("psi is validated against the real tile corners (C04) and pixel grids (C05); png tiles carry 8-bit RGB so the psi comparison allows one level")
